@@ -385,6 +385,7 @@ func Run(c *hx.Ctx) error {
 	c.Stats.Rule = "random histories over 3 series x 8 timestamps x 4 typed fields (partial-field rows, late data, repeated timestamps in a batch) interleaved with flush / level compaction / full compaction / out-of-order merge / clean reopen; after every op three reads (asc, desc, random range+field subset) are compared with the Lean layout model and with a Go last-write-wins map; a history is non-trivial when some (series,time) was written again while an earlier version sat in memory or in a file; distinct by op-kind string"
 	n := c.Budget(60, 1500)
 	r := hx.NewRng(c.Seed)
+	runRecAlg(c, r.Fork(), n*40)
 	for i := 0; i < n; i++ {
 		if err := runHistory(c, r.Fork(), i, 22); err != nil {
 			return err
